@@ -49,6 +49,16 @@ func renderMap(m map[string]string) string {
 
 var modes = map[string]func(in *bufio.Scanner, out *bufio.Writer){}
 
+// hang budget shared by the modes: once a few cases have hung (each costs its full time-out) the remaining cases of
+// the run are not executed; they are reported as "!stall:skipped-after-hangs" (no comparison, no verdict) — the
+// hung cases themselves are reported as what they are
+var hangCount int
+
+const hangBudget = 5
+
+func noteHang()        { hangCount++ }
+func overHangBudget() bool { return hangCount >= hangBudget }
+
 func main() {
 	if len(os.Args) < 2 {
 		fmt.Fprintln(os.Stderr, "usage: verifharness <mode>")
